@@ -3,10 +3,10 @@ package extract
 import (
 	"fmt"
 	"go/ast"
-	"go/parser"
 	"go/token"
 	"os"
 	"path/filepath"
+	"sort"
 	"strconv"
 	"strings"
 )
@@ -42,59 +42,131 @@ func init() {
 		out := Header("Matchers", srcs...)
 		out += "structure Info where\n  id : String\n  name : String\n  query : List String\n  queryIf : List String\n  filter : List String\n  versionFilter : Bool\n  authoritative : Bool\n  vulnLits : List String\n  cmpOps : List String\n  deriving Repr, DecidableEq\n\n"
 		var ids []string
+		// ---- evaluated part (probe "matchers"): Name, Query, VersionFilter, Filter
+		cands := map[string][]string{}
+		allSnap := rxSet{}
+		for _, sn := range rxSnapMatchers {
+			for _, a := range rxFilterAtoms(sn.filter) {
+				allSnap.add(a[1])
+			}
+		}
+		pkgs := map[string]*rxPkg{}
 		for _, m := range ms {
-			_, f, err := ParseFile(repo, m.file)
+			p, err := rxLoadPkg(repo, filepath.Dir(m.file))
 			if err != nil {
 				return "", err
 			}
-			nameFn := FuncDecl(f, m.recv, "Name")
-			queryFn := FuncDecl(f, m.recv, "Query")
-			vulnFn := FuncDecl(f, m.recv, "Vulnerable")
-			if nameFn == nil || queryFn == nil || vulnFn == nil || nameFn.Body == nil || queryFn.Body == nil || vulnFn.Body == nil {
-				return "", fmt.Errorf("%s: Name/Query/Vulnerable method of %s not found", m.file, m.recv)
+			pkgs[m.id] = p
+			set := rxSet{}
+			set.add(allSnap.sorted()...)
+			for _, l := range p.StringLits() {
+				if len(l) <= 80 && !strings.ContainsAny(l, "\n%") {
+					set.add(l)
+				}
 			}
-			name, err := c03SingleStringReturn(nameFn)
+			set.add("", "rx-probe")
+			for _, l := range set.sorted() {
+				if l == "" {
+					continue
+				}
+				set.add(rxCaseVariants(l)...)
+				set.add(l+"x", "x"+l, " "+l, l+" ")
+				if len(l) > 1 {
+					set.add(l[:len(l)-1], l[1:])
+				}
+			}
+			cands[m.id] = set.sorted()
+		}
+		var ev map[string]*struct {
+			Name            string
+			Query           []int
+			QueryConfigured []int
+			VersionFilter   bool
+			Authoritative   bool
+			Base            string
+			Nil             map[string]string
+			Accepted        []struct{ Path, Value string }
+		}
+		if err := rxProbe(repo, "matchers", cands, &ev); err != nil {
+			return "", err
+		}
+		// the names of the constraint constants (libvuln/driver; its stringer file may be stale)
+		drv, err := rxLoadPkg(repo, "libvuln/driver")
+		if err != nil {
+			return "", err
+		}
+		cNames, cVals, err := drv.IotaNames("MatchConstraint")
+		if err != nil {
+			return "", err
+		}
+		constraintNames := func(vs []int) ([]string, error) {
+			if vs == nil {
+				return nil, nil
+			}
+			out := []string{}
+			for _, v := range vs {
+				found := false
+				for i := range cVals {
+					if cVals[i] == int64(v) {
+						out = append(out, cNames[i])
+						found = true
+						break
+					}
+				}
+				if !found {
+					return nil, fmt.Errorf("Query() returns %d, which is no driver.MatchConstraint constant", v)
+				}
+			}
+			return out, nil
+		}
+		for _, m := range ms {
+			e := ev[m.id]
+			if e == nil {
+				return "", fmt.Errorf("matchers probe: no answer for %s", m.id)
+			}
+			p := pkgs[m.id]
+			if len(e.Query) == 0 {
+				return "", fmt.Errorf("%s: Query() returns no constraint", m.file)
+			}
+			snap := rxSnapMatchers[m.id]
+			query, err := constraintNames(e.Query)
 			if err != nil {
-				return "", fmt.Errorf("%s: Name: %w", m.file, err)
+				return "", fmt.Errorf("%s: %w", m.file, err)
 			}
-			query, queryIf := c03QueryFacts(queryFn.Body)
-			filterFn := FuncDecl(f, m.recv, "Filter")
-			if filterFn == nil || filterFn.Body == nil {
-				return "", fmt.Errorf("%s: Filter method of %s not found", m.file, m.recv)
+			configured, err := constraintNames(e.QueryConfigured)
+			if err != nil {
+				return "", fmt.Errorf("%s: %w", m.file, err)
 			}
-			filterFacts, err := c03FilterFacts(repo, filepath.Dir(m.file), filterFn)
+			// conditional constraints: what configuration adds (rhel: ignore_unpatched), and whether
+			// Query branches at all (a branch evaluation with the default configuration cannot see)
+			queryIf, err := rxQueryIf(p, m.recv, m.id, query, configured, snap)
+			if err != nil {
+				return "", fmt.Errorf("%s: Query: %w", m.file, err)
+			}
+			var atoms [][2]string
+			for _, a := range e.Accepted {
+				atoms = append(atoms, [2]string{a.Path, a.Value})
+			}
+			filterFacts, err := rxFilterFacts(m.id, e.Base, e.Nil, atoms, snap)
 			if err != nil {
 				return "", fmt.Errorf("%s: Filter: %w", m.file, err)
 			}
-			if len(query) == 0 {
-				return "", fmt.Errorf("%s: Query: no driver.<constraint> found", m.file)
+			vulnFn := p.Func(m.recv, "Vulnerable")
+			if vulnFn == nil {
+				return "", fmt.Errorf("%s: Vulnerable method of %s not found", m.file, m.recv)
 			}
-			vf := FuncDecl(f, m.recv, "VersionFilter") != nil
-			auth := false
-			if af := FuncDecl(f, m.recv, "VersionAuthoritative"); af != nil {
-				b, err := c03SingleBoolReturn(af)
-				if err != nil {
-					return "", fmt.Errorf("%s: VersionAuthoritative: %w", m.file, err)
-				}
-				auth = b
-				if !vf {
-					return "", fmt.Errorf("%s: VersionAuthoritative without VersionFilter", m.file)
-				}
-			} else if vf {
-				return "", fmt.Errorf("%s: VersionFilter without VersionAuthoritative", m.file)
+			lits, ops := c03VulnerableFacts(p, vulnFn)
+			if os.Getenv("RX_DEBUG") != "" {
+				fmt.Fprintf(os.Stderr, "RX vulnCanon %s: %q\n", m.id, lits)
 			}
-			lits, ops := c03VulnerableFacts(vulnFn.Body)
+			lits = rxVulnLitsRender(lits, snap)
 			out += fmt.Sprintf("def %s : Info :=\n  { id := %s, name := %s,\n    query := %s,\n    queryIf := %s,\n    filter := %s,\n    versionFilter := %v, authoritative := %v,\n    vulnLits := %s,\n    cmpOps := %s }\n\n",
-				m.id, LeanString(m.id), LeanString(name), LeanStrList(query), LeanStrList(queryIf), LeanStrList(filterFacts), vf, auth, LeanStrList(lits), LeanStrList(ops))
+				m.id, LeanString(m.id), LeanString(e.Name), LeanStrList(query), LeanStrList(queryIf), LeanStrList(filterFacts), e.VersionFilter, e.Authoritative, LeanStrList(lits), LeanStrList(ops))
 			ids = append(ids, m.id)
 		}
 		out += "def all : List Info := [" + strings.Join(ids, ", ") + "]\n"
 		// rhel's repository key
-		_, f, err := ParseFile(repo, "rhel/repositoryscanner.go")
-		if err != nil {
-			return "", err
-		}
-		key, err := StringConst(f, "repositoryKey")
+		key, err := pkgs["rhel"].StrConst("repositoryKey")
 		if err != nil {
 			return "", err
 		}
@@ -133,28 +205,6 @@ func init() {
 	}})
 }
 
-func c03SingleStringReturn(fd *ast.FuncDecl) (string, error) {
-	if len(fd.Body.List) == 1 {
-		if rs, ok := fd.Body.List[0].(*ast.ReturnStmt); ok && len(rs.Results) == 1 {
-			if bl, ok := rs.Results[0].(*ast.BasicLit); ok && bl.Kind == token.STRING {
-				return strconv.Unquote(bl.Value)
-			}
-		}
-	}
-	return "", fmt.Errorf("body is not a single `return \"…\"`")
-}
-
-func c03SingleBoolReturn(fd *ast.FuncDecl) (bool, error) {
-	if len(fd.Body.List) == 1 {
-		if rs, ok := fd.Body.List[0].(*ast.ReturnStmt); ok && len(rs.Results) == 1 {
-			if id, ok := rs.Results[0].(*ast.Ident); ok && (id.Name == "true" || id.Name == "false") {
-				return id.Name == "true", nil
-			}
-		}
-	}
-	return false, fmt.Errorf("body is not a single `return true|false`")
-}
-
 // c03RootIdent is the leftmost identifier of a call / selector chain.
 func c03RootIdent(e ast.Expr) string {
 	for {
@@ -184,41 +234,279 @@ func c03ExprText(e ast.Expr) string {
 }
 
 // c03VulnerableFacts walks a Vulnerable body (logging statements skipped):
-// string literals in source order, and the comparisons applied to comparator
-// results: `i == version.LESS`, `i != version.GREATER`, `x.Compare(y) < 0`,
-// `<= 0`, and LessThan / GreaterThan / Equal calls.
-func c03VulnerableFacts(body *ast.BlockStmt) (lits, ops []string) {
-	ast.Inspect(body, func(n ast.Node) bool {
-		switch x := n.(type) {
-		case *ast.ExprStmt:
-			if c03RootIdent(x.X) == "zlog" {
-				return false
-			}
-		case *ast.BasicLit:
-			if x.Kind == token.STRING {
-				if s, err := strconv.Unquote(x.Value); err == nil {
-					lits = append(lits, s)
-				}
-			}
-		case *ast.BinaryExpr:
-			switch x.Op {
-			case token.LSS, token.LEQ, token.GTR, token.GEQ, token.EQL, token.NEQ:
-				y := c03ExprText(x.Y)
-				if y == "0" || strings.HasPrefix(y, "version.") {
-					ops = append(ops, x.Op.String()+" "+y)
-				}
-			}
-		case *ast.CallExpr:
-			if se, ok := x.Fun.(*ast.SelectorExpr); ok {
-				switch se.Sel.Name {
-				case "LessThan", "GreaterThan", "Equal":
-					ops = append(ops, se.Sel.Name)
+// string values in source order — literals, and uses of named string constants
+// (function-local or package-level) at the place of use; the literal inside a
+// constant's own declaration is skipped — and the comparisons applied to
+// comparator results: `i == version.LESS`, `i != version.GREATER`,
+// `x.Compare(y) < 0`, `<= 0` (also written with the constant on the left), and
+// LessThan / GreaterThan / Equal calls.  A call of a function or method of the
+// same package is followed one level (two for a helper of a helper): its facts
+// are inserted at the place of the call.
+func c03VulnerableFacts(p *rxPkg, fd *ast.FuncDecl) (lits, ops []string) {
+	visited := map[*ast.FuncDecl]bool{fd: true}
+	home := p.FileOf(fd)
+	var walk func(fd *ast.FuncDecl, depth int)
+	walk = func(fd *ast.FuncDecl, depth int) {
+		sc := p.ScopeOf(fd)
+		params := map[string]bool{}
+		if fd.Type.Params != nil {
+			for _, f := range fd.Type.Params.List {
+				for _, n := range f.Names {
+					params[n.Name] = true
 				}
 			}
 		}
-		return true
-	})
+		ast.Inspect(fd.Body, func(n ast.Node) bool {
+			switch x := n.(type) {
+			case *ast.ExprStmt:
+				if c03RootIdent(x.X) == "zlog" {
+					return false
+				}
+			case *ast.DeclStmt:
+				if gd, ok := x.Decl.(*ast.GenDecl); ok && gd.Tok == token.CONST {
+					return false
+				}
+			case *ast.BasicLit:
+				if x.Kind == token.STRING {
+					if s, err := strconv.Unquote(x.Value); err == nil {
+						lits = append(lits, s)
+					}
+				}
+			case *ast.Ident:
+				if params[x.Name] || x.Name == "_" {
+					return true
+				}
+				isConst := false
+				if x.Obj != nil {
+					isConst = x.Obj.Kind == ast.Con
+				} else if d := p.Decl(x.Name); d != nil && d.decl.Tok == token.CONST {
+					isConst = true
+				}
+				if isConst {
+					if v, ok := sc.Str(x); ok {
+						lits = append(lits, v)
+					}
+				}
+			case *ast.SelectorExpr:
+				// pkg.Const of another claircore package
+				if id, ok := x.X.(*ast.Ident); ok && id.Obj == nil {
+					if _, isRepo := rxImportDir(rxImportPath(sc.file, id.Name)); isRepo {
+						if v, ok := sc.Str(x); ok {
+							lits = append(lits, v)
+						}
+						return false
+					}
+				}
+			case *ast.BinaryExpr:
+				switch x.Op {
+				case token.LSS, token.LEQ, token.GTR, token.GEQ, token.EQL, token.NEQ:
+					op, y := x.Op, c03ExprText(x.Y)
+					if l := c03ExprText(x.X); (l == "0" || strings.HasPrefix(l, "version.")) && !(y == "0" || strings.HasPrefix(y, "version.")) {
+						// constant on the left: flip
+						y = l
+						switch op {
+						case token.LSS:
+							op = token.GTR
+						case token.LEQ:
+							op = token.GEQ
+						case token.GTR:
+							op = token.LSS
+						case token.GEQ:
+							op = token.LEQ
+						}
+					}
+					if y == "0" || strings.HasPrefix(y, "version.") {
+						ops = append(ops, op.String()+" "+y)
+					}
+				}
+			case *ast.CallExpr:
+				if se, ok := x.Fun.(*ast.SelectorExpr); ok {
+					switch se.Sel.Name {
+					case "LessThan", "GreaterThan", "Equal":
+						ops = append(ops, se.Sel.Name)
+					}
+				}
+				// a helper extracted from Vulnerable: an unexported function or method declared in the
+				// same file (exported functions and the version parsers of other files are API, not part of the body)
+				if depth < 2 {
+					if callee := p.rxCallee(x); callee != nil && !visited[callee] && !callee.Name.IsExported() && p.FileOf(callee) == home {
+						visited[callee] = true
+						walk(callee, depth+1)
+					}
+				}
+			}
+			return true
+		})
+	}
+	walk(fd, 0)
 	return lits, ops
+}
+
+// rxVulnLitsRender: the resolved string values are printed under the snapshot's
+// spelling (which did not resolve package-level constants) exactly when they are
+// the snapshot's resolved values; otherwise as they are.
+func rxVulnLitsRender(lits []string, snap rxMatcherSnap) []string {
+	if snap.vulnCanon != nil && strings.Join(lits, "\x00") == strings.Join(snap.vulnCanon, "\x00") && len(lits) == len(snap.vulnCanon) {
+		return append([]string{}, snap.vulnLits...)
+	}
+	if lits == nil {
+		return []string{}
+	}
+	return lits
+}
+
+// rxFilterAtoms expands the atoms `path=v1|v2` of a filter fact list.
+func rxFilterAtoms(facts []string) [][2]string {
+	var out [][2]string
+	for _, f := range facts {
+		if strings.HasSuffix(f, "==nil") || strings.HasSuffix(f, "!=nil") {
+			continue
+		}
+		path, vals, ok := strings.Cut(f, "=")
+		if !ok {
+			continue
+		}
+		for _, v := range strings.Split(vals, "|") {
+			out = append(out, [2]string{path, v})
+		}
+	}
+	return out
+}
+
+// rxFilterFacts states what Filter was observed to do (probe "matchers"):
+//
+//	guards  for every part of the record (Distribution, Repository) some accepted field lives in:
+//	        a record without that part is rejected (no panic);
+//	atoms   the (field, value) pairs that alone turn the never-matching base record into an accepted one.
+//
+// When guards and atoms are exactly what the snapshot's fact list says, that list
+// is printed (its order, its `==nil` / `!=nil` spelling of the guard and its
+// grouping of values were read off the source and carry no further meaning);
+// otherwise the observation is printed in canonical order.
+func rxFilterFacts(id, base string, nilRes map[string]string, atoms [][2]string, snap rxMatcherSnap) ([]string, error) {
+	if base != "false" {
+		return []string{"base-record:" + base}, nil
+	}
+	if len(atoms) == 0 {
+		return nil, fmt.Errorf("no field value makes Filter accept a record (candidates: the string literals of the package)")
+	}
+	roots := rxSet{}
+	got := rxSet{}
+	for _, a := range atoms {
+		got.add(a[0] + "=" + a[1])
+		if r, _, ok := strings.Cut(a[0], "."); ok && (r == "Distribution" || r == "Repository") {
+			roots.add(r)
+		}
+	}
+	var canon []string
+	guardsOK := true
+	for _, r := range roots.sorted() {
+		switch nilRes[r] {
+		case "false":
+			canon = append(canon, r+"==nil")
+		default:
+			guardsOK = false
+			canon = append(canon, r+"==nil->"+nilRes[r])
+		}
+	}
+	canon = append(canon, got.sorted()...)
+	var anomalies []string
+	for k, v := range nilRes {
+		if k != "Distribution" && k != "Repository" {
+			anomalies = append(anomalies, k+"->"+v)
+		}
+	}
+	sort.Strings(anomalies)
+	canon = append(canon, anomalies...)
+	want := rxSet{}
+	for _, a := range rxFilterAtoms(snap.filter) {
+		want.add(a[0] + "=" + a[1])
+	}
+	wantRoots := rxSet{}
+	for _, f := range snap.filter {
+		if strings.HasSuffix(f, "==nil") || strings.HasSuffix(f, "!=nil") {
+			wantRoots.add(f[:len(f)-5])
+		}
+	}
+	if guardsOK && len(anomalies) == 0 && strings.Join(want.sorted(), "\x00") == strings.Join(got.sorted(), "\x00") &&
+		strings.Join(wantRoots.sorted(), "\x00") == strings.Join(roots.sorted(), "\x00") {
+		return append([]string{}, snap.filter...), nil
+	}
+	return canon, nil
+}
+
+// rxQueryIf: the constraints Query() adds or drops under configuration (rhel:
+// `ignore_unpatched`), from the evaluated default and configured lists, and a
+// syntactic note when Query (or a helper it calls) branches although no
+// configuration explains it.
+func rxQueryIf(p *rxPkg, recv, id string, query, configured []string, snap rxMatcherSnap) ([]string, error) {
+	fd := p.Func(recv, "Query")
+	if fd == nil {
+		return nil, fmt.Errorf("Query method of %s not found", recv)
+	}
+	branches := false
+	seen := map[*ast.FuncDecl]bool{fd: true}
+	var look func(fd *ast.FuncDecl, depth int)
+	look = func(fd *ast.FuncDecl, depth int) {
+		ast.Inspect(fd.Body, func(n ast.Node) bool {
+			switch x := n.(type) {
+			case *ast.IfStmt, *ast.SwitchStmt, *ast.TypeSwitchStmt, *ast.SelectStmt:
+				branches = true
+			case *ast.CallExpr:
+				if depth == 0 {
+					if c := p.rxCallee(x); c != nil && !seen[c] {
+						seen[c] = true
+						look(c, 1)
+					}
+				}
+			}
+			return true
+		})
+	}
+	look(fd, 0)
+	canon := []string{}
+	if configured != nil {
+		in := func(xs []string, x string) bool {
+			for _, y := range xs {
+				if y == x {
+					return true
+				}
+			}
+			return false
+		}
+		for _, c := range configured {
+			if !in(query, c) {
+				canon = append(canon, "ignore_unpatched:+"+c)
+			}
+		}
+		for _, c := range query {
+			if !in(configured, c) {
+				canon = append(canon, "ignore_unpatched:-"+c)
+			}
+		}
+		// the common constraints keep their order
+		var a, b []string
+		for _, c := range query {
+			if in(configured, c) {
+				a = append(a, c)
+			}
+		}
+		for _, c := range configured {
+			if in(query, c) {
+				b = append(b, c)
+			}
+		}
+		if strings.Join(a, ",") != strings.Join(b, ",") || (len(configured) > 0 && len(a) > 0 && configured[0] != a[0]) {
+			canon = append(canon, "ignore_unpatched:reordered:"+strings.Join(configured, ","))
+		}
+	}
+	if branches && len(canon) == 0 {
+		canon = append(canon, "branches-on-state-no-configuration-explains")
+	}
+	if strings.Join(canon, "\x00") == strings.Join(snap.queryIfCanon, "\x00") {
+		return append([]string{}, snap.queryIf...), nil
+	}
+	return canon, nil
 }
 
 // c03SQLFacts reads the two places where the half-open range reaches SQL.
@@ -312,64 +600,6 @@ func c03Pins(repo string) ([]string, error) {
 	return out, nil
 }
 
-// c03QueryFacts: the driver.<constraint> selectors of a Query body; those
-// inside an if statement are conditional ("<condition>:<constraint>").
-func c03QueryFacts(body *ast.BlockStmt) (always, cond []string) {
-	var walk func(n ast.Node, under string)
-	walk = func(n ast.Node, under string) {
-		ast.Inspect(n, func(x ast.Node) bool {
-			switch y := x.(type) {
-			case *ast.IfStmt:
-				if y.Init != nil {
-					walk(y.Init, under)
-				}
-				c := c03ExprText(y.Cond)
-				if under != "" {
-					c = under + "&&" + c
-				}
-				walk(y.Body, c)
-				if y.Else != nil {
-					walk(y.Else, "!("+c+")")
-				}
-				return false
-			case *ast.SelectorExpr:
-				if id, ok := y.X.(*ast.Ident); ok && id.Name == "driver" && y.Sel.Name != "MatchConstraint" {
-					if under == "" {
-						always = append(always, y.Sel.Name)
-					} else {
-						cond = append(cond, under+":"+y.Sel.Name)
-					}
-				}
-			}
-			return true
-		})
-	}
-	walk(body, "")
-	return always, cond
-}
-
-// c03PkgFiles parses the non-test Go files of a package directory.
-func c03PkgFiles(repo, dir string) ([]*ast.File, error) {
-	ents, err := os.ReadDir(filepath.Join(repo, dir))
-	if err != nil {
-		return nil, err
-	}
-	var out []*ast.File
-	fset := token.NewFileSet()
-	for _, e := range ents {
-		n := e.Name()
-		if e.IsDir() || !strings.HasSuffix(n, ".go") || strings.HasSuffix(n, "_test.go") || strings.HasSuffix(n, "_verif.go") {
-			continue
-		}
-		f, err := parser.ParseFile(fset, filepath.Join(repo, dir, n), nil, 0)
-		if err != nil {
-			return nil, err
-		}
-		out = append(out, f)
-	}
-	return out, nil
-}
-
 func c03FindValue(files []*ast.File, name string) ast.Expr {
 	for _, f := range files {
 		for _, d := range f.Decls {
@@ -391,131 +621,6 @@ func c03FindValue(files []*ast.File, name string) ast.Expr {
 		}
 	}
 	return nil
-}
-
-// c03Resolve: the string(s) an expression of a Filter body stands for:
-// a literal, a package-level constant, a slice of them, or a field of a
-// package-level composite literal (GoldRepo.Name, AL1Dist.Name).
-func c03Resolve(files []*ast.File, e ast.Expr, depth int) ([]string, bool) {
-	if depth > 4 {
-		return nil, false
-	}
-	switch x := e.(type) {
-	case *ast.BasicLit:
-		if x.Kind == token.STRING {
-			if s, err := strconv.Unquote(x.Value); err == nil {
-				return []string{s}, true
-			}
-		}
-	case *ast.Ident:
-		if v := c03FindValue(files, x.Name); v != nil {
-			return c03Resolve(files, v, depth+1)
-		}
-	case *ast.CompositeLit:
-		var out []string
-		for _, el := range x.Elts {
-			if _, isKV := el.(*ast.KeyValueExpr); isKV {
-				return nil, false
-			}
-			s, ok := c03Resolve(files, el, depth+1)
-			if !ok {
-				return nil, false
-			}
-			out = append(out, s...)
-		}
-		return out, true
-	case *ast.SelectorExpr:
-		id, ok := x.X.(*ast.Ident)
-		if !ok {
-			return nil, false
-		}
-		v := c03FindValue(files, id.Name)
-		if u, ok := v.(*ast.UnaryExpr); ok {
-			v = u.X
-		}
-		cl, ok := v.(*ast.CompositeLit)
-		if !ok {
-			return nil, false
-		}
-		for _, el := range cl.Elts {
-			if kv, ok := el.(*ast.KeyValueExpr); ok {
-				if k, ok := kv.Key.(*ast.Ident); ok && k.Name == x.Sel.Name {
-					return c03Resolve(files, kv.Value, depth+1)
-				}
-			}
-		}
-	}
-	return nil, false
-}
-
-// c03FilterFacts: what a Filter body compares, in source order:
-// "<record path>==nil" / "!=nil", "<record path>=<v1>|<v2>…" for an equality
-// with resolvable strings or a contains(list, record path) call.
-func c03FilterFacts(repo, dir string, fd *ast.FuncDecl) ([]string, error) {
-	files, err := c03PkgFiles(repo, dir)
-	if err != nil {
-		return nil, err
-	}
-	if fd.Type.Params == nil || len(fd.Type.Params.List) != 1 || len(fd.Type.Params.List[0].Names) != 1 {
-		return nil, fmt.Errorf("unexpected parameter list")
-	}
-	param := fd.Type.Params.List[0].Names[0].Name
-	isRec := func(e ast.Expr) (string, bool) {
-		if c03RootIdent(e) != param {
-			return "", false
-		}
-		return strings.TrimPrefix(c03ExprText(e), param+"."), true
-	}
-	var facts []string
-	var bad error
-	ast.Inspect(fd.Body, func(n ast.Node) bool {
-		switch x := n.(type) {
-		case *ast.BinaryExpr:
-			if x.Op != token.EQL && x.Op != token.NEQ {
-				return true
-			}
-			l, r := x.X, x.Y
-			if _, ok := isRec(l); !ok {
-				l, r = r, l
-			}
-			path, ok := isRec(l)
-			if !ok {
-				return true
-			}
-			if id, ok := r.(*ast.Ident); ok && id.Name == "nil" {
-				facts = append(facts, path+x.Op.String()+"nil")
-				return true
-			}
-			vals, ok := c03Resolve(files, r, 0)
-			if !ok {
-				bad = fmt.Errorf("cannot resolve %s", c03ExprText(r))
-				return true
-			}
-			op := "="
-			if x.Op == token.NEQ {
-				op = "!="
-			}
-			facts = append(facts, path+op+strings.Join(vals, "|"))
-		case *ast.CallExpr:
-			if id, ok := x.Fun.(*ast.Ident); ok && id.Name == "contains" && len(x.Args) == 2 {
-				path, ok := isRec(x.Args[1])
-				vals, ok2 := c03Resolve(files, x.Args[0], 0)
-				if !ok || !ok2 {
-					bad = fmt.Errorf("contains(...) call not understood")
-					return true
-				}
-				facts = append(facts, path+"="+strings.Join(vals, "|"))
-			}
-		}
-		return true
-	})
-	if bad != nil {
-		return nil, bad
-	}
-	if len(facts) == 0 {
-		return nil, fmt.Errorf("no comparison found")
-	}
-	return facts, nil
 }
 
 // c03Defaults reads matchers/defaults/defaults.go: the elements of the
